@@ -6,6 +6,10 @@ import AJ.Model.PL
 import AJ.Model.JD
 namespace DL
 open JD (Byte storeDouble Num)
+/- All definitions of this file are total (structural recursion only). Walks along `next` links and recursion over
+   the tree are by structural recursion on a fuel argument; the fuel `Doc.fuel = nullSlot + 1` exceeds the number of
+   distinct non-null slot ids of the geometry, hence the length of every acyclic chain and the depth of every tree
+   without sharing (proved in AJ/Lemmas/DocInv.lean: under `WF` the fuel never runs out). -/
 
 inductive VData
   | null | bool (b : Bool) | i32 (v : Int) | u32 (v : Nat) | f32 (bits : Nat)
@@ -40,21 +44,25 @@ structure Doc where
 instance : Inhabited Doc := ⟨{ g := ⟨256, 4, 4, 16, 16⟩, alloc := 0, pl := PL.init ⟨256, 4, 4, 16, 16⟩ }⟩
 
 def Doc.null (d : Doc) : Nat := d.g.nullSlot
+/-- fuel for every walk: more than the number of distinct non-null slot ids -/
+def Doc.fuel (d : Doc) : Nat := d.g.nullSlot + 1
+/-- content of a slot (slots never written are free) -/
+def Doc.cell (d : Doc) (id : Nat) : Cell := d.cells.getD id .free
 
 inductive Loc | root | slot (id : Nat)
 deriving Repr, BEq, Inhabited
 
 def Doc.get (d : Doc) : Loc → VData
   | .root => d.root
-  | .slot id => match d.cells.getD id .free with | .var v _ => v | _ => .null
+  | .slot id => match d.cell id with | .var v _ => v | _ => .null
 def Doc.nextOf (d : Doc) (id : Nat) : Nat :=
-  match d.cells.getD id .free with | .var _ n => n | _ => d.null
+  match d.cell id with | .var _ n => n | _ => d.null
 def Doc.set (d : Doc) (l : Loc) (v : VData) : Doc :=
   match l with
   | .root => { d with root := v }
   | .slot id => { d with cells := d.cells.insert id (.var v (d.nextOf id)) }
 def Doc.setNext (d : Doc) (id n : Nat) : Doc :=
-  match d.cells.getD id .free with
+  match d.cell id with
   | .var v _ => { d with cells := d.cells.insert id (.var v n) }
   | _ => d
 
@@ -84,32 +92,41 @@ def Doc.allocExt (d : Doc) (payload : Int) : Option Nat × Doc :=
   match PL.allocSlot d.g d.pl with
   | (some id, pl) => (some id, { d with pl := pl, cells := d.cells.insert id (.ext payload) })
   | (none, pl) => (none, { d with pl := pl, overflowed := true })
-def Doc.extOf (d : Doc) (id : Nat) : Int := match d.cells.getD id .free with | .ext p => p | _ => 0
+def Doc.extOf (d : Doc) (id : Nat) : Int := match d.cell id with | .ext p => p | _ => 0
 
-mutual
-/-- VariantData::clear on the value stored at `l` -/
-partial def Doc.clearV (d : Doc) (l : Loc) : Doc :=
-  let v := d.get l
-  let d := match v with
-    | .owned n | .raw n => d.derefString n
-    | _ => d
-  let d := match v with
-    | .i64 s | .u64 s | .f64 s => { d with pl := PL.freeSlot d.pl s, cells := d.cells.insert s .free }
-    | _ => d
-  let d := match v with
-    | .arr h _ | .obj h _ => d.clearChain h
-    | _ => d
-  d.set l .null
-/-- CollectionData::clear: free every slot of the chain -/
-partial def Doc.clearChain (d : Doc) (id : Nat) : Doc :=
-  if id == d.null then d else
-  let next := d.nextOf id
-  let d := d.freeVariant id
-  d.clearChain next
-partial def Doc.freeVariant (d : Doc) (id : Nat) : Doc :=
-  let d := d.clearV (.slot id)
+/-- release slot `id` to the pool -/
+def Doc.freeCell (d : Doc) (id : Nat) : Doc :=
   { d with pl := PL.freeSlot d.pl id, cells := d.cells.insert id .free }
-end
+
+/-- CollectionData::clear: walk the chain from `id`, releasing every slot with `free1` (which clears the variant
+    stored there first); the `next` link is read before the slot is released. -/
+def walkFree (free1 : Doc → Nat → Doc) : Nat → Doc → Nat → Doc
+  | 0, d, _ => d
+  | w+1, d, id =>
+    if id = d.null then d else
+    let next := d.nextOf id
+    walkFree free1 w (free1 d id) next
+
+/-- VariantData::clear on the value stored at `l` (fuel = nesting depth that can be descended) -/
+def Doc.clearVF : Nat → Doc → Loc → Doc
+  | 0, d, l => d.set l .null
+  | f+1, d, l =>
+    let v := d.get l
+    let d := match v with
+      | .owned n | .raw n => d.derefString n
+      | _ => d
+    let d := match v with
+      | .i64 s | .u64 s | .f64 s => d.freeCell s
+      | _ => d
+    let d := match v with
+      | .arr h _ | .obj h _ => walkFree (fun d id => (Doc.clearVF f d (.slot id)).freeCell id) d.fuel d h
+      | _ => d
+    d.set l .null
+def Doc.clearV (d : Doc) (l : Loc) : Doc := Doc.clearVF d.fuel d l
+/-- ResourceManager::freeVariant: clear the variant, then release its slot -/
+def Doc.freeVariant (d : Doc) (id : Nat) : Doc := (d.clearV (.slot id)).freeCell id
+/-- CollectionData::clear: free every slot of the chain -/
+def Doc.clearChain (d : Doc) (id : Nat) : Doc := walkFree Doc.freeVariant d.fuel d id
 
 /-! scalars -/
 inductive Arg
@@ -154,17 +171,20 @@ def Doc.setArg (d : Doc) (l : Loc) (a : Arg) : Bool × Doc :=
 def Doc.appendOne (d : Doc) (l : Loc) (id : Nat) : Doc :=
   match d.get l with
   | .arr h t =>
-    if t != d.null then (d.setNext t id).set l (.arr h id) else d.set l (.arr id id)
+    if t ≠ d.null then (d.setNext t id).set l (.arr h id) else d.set l (.arr id id)
   | _ => d
 def Doc.appendPair (d : Doc) (l : Loc) (k v : Nat) : Doc :=
   let d := d.setNext k v
   match d.get l with
   | .obj h t =>
-    if t != d.null then (d.setNext t k).set l (.obj h v) else d.set l (.obj k v)
+    if t ≠ d.null then (d.setNext t k).set l (.obj h v) else d.set l (.obj k v)
   | _ => d
 
-partial def Doc.chain (d : Doc) (id : Nat) : List Nat :=
-  if id == d.null then [] else id :: d.chain (d.nextOf id)
+/-- ids met when following `next` from `id` until the null id -/
+def Doc.chainF (d : Doc) : Nat → Nat → List Nat
+  | 0, _ => []
+  | f+1, id => if id = d.null then [] else id :: Doc.chainF d f (d.nextOf id)
+def Doc.chain (d : Doc) (id : Nat) : List Nat := d.chainF d.fuel id
 
 def Doc.keyBytes (d : Doc) (id : Nat) : Option (List Byte) :=
   match d.get (.slot id) with
@@ -172,14 +192,13 @@ def Doc.keyBytes (d : Doc) (id : Nat) : Option (List Byte) :=
   | .owned n => some (d.strBytes n)
   | _ => none
 
+def Doc.findIn (d : Doc) (key : List Byte) : List Nat → Option (Nat × Nat)
+  | k :: v :: rest => if d.keyBytes k = some key then some (k, v) else Doc.findIn d key rest
+  | _ => none
 /-- findKey: returns (key slot, value slot) -/
 def Doc.findKey (d : Doc) (l : Loc) (key : List Byte) : Option (Nat × Nat) :=
   match d.get l with
-  | .obj h _ =>
-    let rec go : List Nat → Option (Nat × Nat)
-      | k :: v :: rest => if d.keyBytes k == some key then some (k, v) else go rest
-      | _ => none
-    go (d.chain h)
+  | .obj h _ => d.findIn key (d.chain h)
   | _ => none
 
 def Doc.addElement (d : Doc) (l : Loc) : Option Nat × Doc :=
@@ -227,12 +246,10 @@ def Doc.getOrAddElement (d : Doc) (l : Loc) (index : Nat) : Option Nat × Doc :=
     pad (index + 2) d (index + 1 - ch.length) none
   | _ => (none, d)
 
-def Doc.prevOf (d : Doc) (h target : Nat) : Option Nat :=
-  let ch := d.chain h
-  let rec go : List Nat → Option Nat
-    | a :: b :: rest => if b == target then some a else go (b :: rest)
-    | _ => none
-  go ch
+def prevIn (target : Nat) : List Nat → Option Nat
+  | a :: b :: rest => if b = target then some a else prevIn target (b :: rest)
+  | _ => none
+def Doc.prevOf (d : Doc) (h target : Nat) : Option Nat := prevIn target (d.chain h)
 
 /-- CollectionData::removeOne -/
 def Doc.removeOne (d : Doc) (l : Loc) (id : Nat) : Doc :=
@@ -241,7 +258,7 @@ def Doc.removeOne (d : Doc) (l : Loc) (id : Nat) : Doc :=
     let next := d.nextOf id
     let d := match prev with | some p => d.setNext p next | none => d
     let h' := if prev.isNone then next else h
-    let t' := if next == d.null then (prev.getD d.null) else t
+    let t' := if next = d.null then (prev.getD d.null) else t
     let d := d.set l (mk h' t')
     d.freeVariant id
   match d.get l with
@@ -254,7 +271,23 @@ def Doc.removePair (d : Doc) (l : Loc) (k v : Nat) : Doc :=
   d.removeOne l k
 
 /-! deep copy between documents (JsonVariantCopier): source is read from `src`, destination lives in `d` -/
-partial def copyInto (d : Doc) (l : Loc) (src : Doc) (sv : VData) : Doc :=
+/-- key bytes and "linked" flag of a source key slot, as `JsonObject::set` passes them to `operator[]` -/
+def Doc.keyOf (src : Doc) (k : Nat) : List Byte × Bool :=
+  match src.get (.slot k) with
+  | .linked s => (s, true)
+  | .owned n => (src.strBytes n, false)
+  | _ => ([], false)
+/-- JsonObject::set: for each member `dst[key].set(value)`; `copy d m v` copies source slot `v` into slot `m` of `d` -/
+def copyMembers (l : Loc) (src : Doc) (copy : Doc → Nat → Nat → Doc) (d : Doc) : List Nat → Doc
+  | k :: v :: rest =>
+    let (key, linked) := src.keyOf k
+    match d.getOrAddMember l key linked with
+    | (some m, d) => copyMembers l src copy (copy d m v) rest
+    | (none, d) => copyMembers l src copy d rest
+  | _ => d
+def copyIntoF : Nat → Doc → Loc → Doc → VData → Doc
+  | 0, d, l, _, _ => d.clearV l
+  | f+1, d, l, src, sv =>
   let d := d.clearV l
   match sv with
   | .null => d
@@ -275,21 +308,12 @@ partial def copyInto (d : Doc) (l : Loc) (src : Doc) (sv : VData) : Doc :=
       match d.allocVariant with
       | (none, d) => d
       | (some id, d) =>
-        let d := copyInto d (.slot id) src (src.get (.slot e))
+        let d := copyIntoF f d (.slot id) src (src.get (.slot e))
         d.appendOne l id) d
   | .obj h _ =>
     let d := d.set l (.obj d.null d.null)
-    let rec go (d : Doc) : List Nat → Doc
-      | k :: v :: rest =>
-        let (key, linked) := match src.get (.slot k) with
-          | .linked s => (s, true)
-          | .owned n => (src.strBytes n, false)
-          | _ => ([], false)
-        match d.getOrAddMember l key linked with
-        | (some m, d) => go (copyInto d (.slot m) src (src.get (.slot v))) rest
-        | (none, d) => go d rest
-      | _ => d
-    go d (src.chain h)
+    copyMembers l src (fun d m v => copyIntoF f d (.slot m) src (src.get (.slot v))) d (src.chain h)
+def copyInto (d : Doc) (l : Loc) (src : Doc) (sv : VData) : Doc := copyIntoF src.fuel d l src sv
 
 def Doc.clearAll (d : Doc) : Doc :=
   let pl := PL.clear d.g d.pl
@@ -301,43 +325,53 @@ def hexDigit (n : Nat) : Char := if n < 10 then Char.ofNat (48 + n) else Char.of
 def hexBytes (bs : List Byte) : String := String.ofList (bs.flatMap (fun b => [hexDigit (b.toNat / 16), hexDigit (b.toNat % 16)]))
 def hexNat (n digits : Nat) : String := String.ofList ((List.range digits).reverse.map (fun i => hexDigit (n / 16^i % 16)))
 
-partial def Doc.show (d : Doc) (v : VData) : String :=
+/-- consecutive (key slot, value slot) pairs of an object chain -/
+def pairUp {α} (f : Nat → Nat → α) : List Nat → List α
+  | k :: v :: rest => f k v :: pairUp f rest
+  | _ => []
+
+def Doc.showF (d : Doc) : Nat → VData → String
+  | 0, _ => "N"
+  | f+1, v =>
   match v with
   | .null => "N" | .bool true => "T" | .bool false => "F"
   | .i32 x => s!"I{x}" | .u32 x => s!"U{x}" | .f32 b => "f" ++ hexNat b 8
   | .i64 s => s!"I{d.extOf s}" | .u64 s => s!"U{d.extOf s}" | .f64 s => "d" ++ hexNat (d.extOf s).toNat 16
   | .linked s => "S" ++ hexBytes s | .owned n => "S" ++ hexBytes (d.strBytes n) | .raw n => "R" ++ hexBytes (d.strBytes n)
-  | .arr h _ => "[" ++ ",".intercalate ((d.chain h).map (fun e => d.show (d.get (.slot e)))) ++ "]"
+  | .arr h _ => "[" ++ ",".intercalate ((d.chain h).map (fun e => Doc.showF d f (d.get (.slot e)))) ++ "]"
   | .obj h _ =>
-    let rec go : List Nat → List String
-      | k :: v :: rest => (hexBytes ((d.keyBytes k).getD []) ++ ":" ++ d.show (d.get (.slot v))) :: go rest
-      | _ => []
-    "{" ++ ",".intercalate (go (d.chain h)) ++ "}"
+    "{" ++ ",".intercalate (pairUp (fun k v => hexBytes ((d.keyBytes k).getD []) ++ ":" ++ Doc.showF d f (d.get (.slot v))) (d.chain h)) ++ "}"
+def Doc.show (d : Doc) (v : VData) : String := d.showF d.fuel v
 instance : Inhabited JD.Val := ⟨.null⟩
 
 /-- the value as an ordered tree -/
-partial def Doc.toVal (d : Doc) (v : VData) : JD.Val :=
+def Doc.toValF (d : Doc) : Nat → VData → JD.Val
+  | 0, _ => .null
+  | f+1, v =>
   match v with
   | .null => .null | .bool b => .bool b
   | .i32 x => .num (.sint x) | .u32 x => .num (.uint x) | .f32 b => .num (.f32 b)
   | .i64 s => .num (.sint (d.extOf s)) | .u64 s => .num (.uint (d.extOf s).toNat) | .f64 s => .num (.f64 (d.extOf s).toNat)
   | .linked s => .str s | .owned n => .str (d.strBytes n) | .raw n => .raw (d.strBytes n)
-  | .arr h _ => .arr ((d.chain h).map (fun e => d.toVal (d.get (.slot e))))
-  | .obj h _ =>
-    let rec go : List Nat → List (List Byte × JD.Val)
-      | k :: v :: rest => ((d.keyBytes k).getD [], d.toVal (d.get (.slot v))) :: go rest
-      | _ => []
-    .obj (go (d.chain h))
+  | .arr h _ => .arr ((d.chain h).map (fun e => Doc.toValF d f (d.get (.slot e))))
+  | .obj h _ => .obj (pairUp (fun k v => ((d.keyBytes k).getD [], Doc.toValF d f (d.get (.slot v)))) (d.chain h))
+def Doc.toVal (d : Doc) (v : VData) : JD.Val := d.toValF d.fuel v
 /-- slot ids of all variants reachable from `v` (elements, keys and member values, recursively) -/
-partial def Doc.reach (d : Doc) (v : VData) : List Nat :=
+def Doc.reachF (d : Doc) : Nat → VData → List Nat
+  | 0, _ => []
+  | f+1, v =>
   match v with
-  | .arr h _ | .obj h _ => (d.chain h).flatMap (fun e => e :: d.reach (d.get (.slot e)))
+  | .arr h _ | .obj h _ => (d.chain h).flatMap (fun e => e :: Doc.reachF d f (d.get (.slot e)))
   | _ => []
-partial def Doc.size (d : Doc) (v : VData) : Nat :=
+def Doc.reach (d : Doc) (v : VData) : List Nat := d.reachF d.fuel v
+def Doc.size (d : Doc) (v : VData) : Nat :=
   match v with | .arr h _ => (d.chain h).length | .obj h _ => (d.chain h).length / 2 | _ => 0
-partial def Doc.nesting (d : Doc) (v : VData) : Nat :=
+def Doc.nestingF (d : Doc) : Nat → VData → Nat
+  | 0, _ => 0
+  | f+1, v =>
   match v with
-  | .arr h _ => 1 + ((d.chain h).map (fun e => d.nesting (d.get (.slot e)))).foldl max 0
-  | .obj h _ => 1 + ((d.chain h).map (fun e => d.nesting (d.get (.slot e)))).foldl max 0
+  | .arr h _ => 1 + ((d.chain h).map (fun e => Doc.nestingF d f (d.get (.slot e)))).foldl max 0
+  | .obj h _ => 1 + ((d.chain h).map (fun e => Doc.nestingF d f (d.get (.slot e)))).foldl max 0
   | _ => 0
+def Doc.nesting (d : Doc) (v : VData) : Nat := d.nestingF d.fuel v
 end DL
